@@ -221,9 +221,10 @@ def wave_clauses(name, s, R, dg, res):
     out.append(("wave:t=0-is-the-steady-profile", worst, TOL_ANCHOR,
                 {"field": wf, "x": float(xi[idx][wi]) if len(idx) else None, "nodes_compared": int(len(idx))}, {}))
     # (b) translation: F(q, t) = solver(q + M0 c0 t, t) independent of t.  Points: mid-cells chosen evenly by node index
-    # (dense where the profile is steep) and evenly by position; cells narrower than 1e-7 of the width are left out
+    # (dense where the profile is steep) and evenly by position; cells narrower than 1e-10 of the width (the doubled
+    # abscissa of an embedded shock) are left out
     mids = 0.5 * (xi[1:] + xi[:-1])
-    ok = d > 1e-7 * width
+    ok = d > 1e-10 * width
     byidx = np.unique(np.linspace(0, len(mids) - 1, NPTS // 2).astype(int))
     pos = np.linspace(xi[0], xi[-1], NPTS // 2 + 2)[1:-1]
     bypos = np.clip(np.searchsorted(xi, pos) - 1, 0, len(mids) - 1)
